@@ -27,6 +27,14 @@ def creatorBound (s : State) (creator : Addr) (d : Did) : Bool :=
   | some x => x.did = d
   | none => false
 
+structure FaultIn where
+  dataId : Bytes
+  orderId : Nat
+  shardId : Nat
+  commitId : Bytes
+  provider : Addr
+  deriving Repr, Inhabited
+
 structure Proposal where
   owner : Did
   provider : Addr
@@ -212,11 +220,12 @@ def saoComplete (e : Env) (s : State) (creator msgProvider : Addr) (orderId size
                                 duration := subU64 (addU64 oldShard.createdAt oldShard.duration) (toU64 s.h) }
       let s ← softTx' (marketMigrate s inProgress oldShard shard)
       let s := s.removeShard oldShard.id
-      -- order list: [order] ++ [inProgress if different] ++ orders of all but the last renew info
-      let extra := if oldShard.renewInfos.length > 1 then
-          (oldShard.renewInfos.dropLast.map (fun ri => (s.getOrder ri.orderId).getD default)) else []
+      let s0 := s
+      -- order list: [order] ++ [inProgress if different] ++ the orders of every pending renewal not
+      -- already in the list (the `fix:` of F02)
+      let extraIds := (oldShard.renewInfos.map (·.orderId)).filter (fun id => id ≠ order.id ∧ id ≠ inProgress.id)
       let strip (o : Order) (first : Bool) : Order :=
-        let ns := o.shards.filter (· ≠ oldShard.id)
+        let ns := o.shards.filter (fun id => id ≠ oldShard.id ∧ (first ∨ id ≠ shard.id))
         { o with shards := if first then ns else ns ++ [shard.id] }
       let order' := strip order true
       let s := s.setOrder order'
@@ -224,7 +233,11 @@ def saoComplete (e : Env) (s : State) (creator msgProvider : Addr) (orderId size
           let ip := strip inProgress false
           (s.setOrder ip, ip)
         else (s, order')
-      let s := extra.foldl (fun s o => s.setOrder (strip o false)) s
+      -- each renewal order is read from the store at the time the list is built (before any SetOrder)
+      let s := extraIds.foldl (fun (s' : State) id =>
+          match s0.getOrder id with
+          | some o => s'.setOrder (strip o false)
+          | none => s') s
       pure (s, order', shard, inProgress')
     else do
       let shard := { shard with createdAt := toU64 s.h, duration := order.duration }
